@@ -115,6 +115,12 @@ class SetM:
         self.inserts = []
 
 
+class BoolArrayM:
+    """1-d boolean array: list of python bools / z3 Bools."""
+    def __init__(self, bits):
+        self.bits = bits
+
+
 class IndexArrayM:
     """1-d integer array known only as 'the set S in some order'."""
     def __init__(self, inserts, dtype, is_sorted, unique, fits=True):
@@ -135,6 +141,26 @@ def val_bv64(v):
     if isinstance(v, (int, np.integer)):
         return z3.BitVecVal(int(v), 64)
     raise CannotEncode(f'set element {v!r}')
+
+
+def to_wide(v, w):
+    """Mathematical value of an int-like as a signed w-bit term (w wider than every operand)."""
+    if isinstance(v, (bool, np.bool_)):
+        v = int(v)
+    if isinstance(v, (int, np.integer)):
+        return z3.BitVecVal(int(v), w)
+    if isinstance(v, SInt):
+        return z3.SignExt(w - v.term.size(), v.term)
+    if isinstance(v, CVal):
+        t = v.z3()
+        return z3.SignExt(w - t.size(), t) if v.ctype.signed else z3.ZeroExt(w - t.size(), t)
+    raise CannotEncode(f'not an integer: {v!r}')
+
+
+def np_dtype(x):
+    if isinstance(x, I.External) and x.mod == 'numpy':
+        return np.dtype(getattr(np, x.attr))
+    return np.dtype(x)
 
 
 _NP_CT = {'u1': 'uint8_t', 'u2': 'uint16_t', 'u4': 'uint32_t', 'u8': 'uint64_t',
@@ -191,7 +217,7 @@ class Models:
             if attr == 'ndim':
                 return 1
             return I.ModelMethod(obj, attr)
-        if isinstance(obj, (DenseBoolM, SetM, IndexArrayM)):
+        if isinstance(obj, (DenseBoolM, SetM, IndexArrayM, BoolArrayM)):
             if attr == 'dtype' and isinstance(obj, IndexArrayM):
                 return obj.dtype
             return I.ModelMethod(obj, attr)
@@ -226,6 +252,12 @@ class Models:
         return UNSET
 
     def compare(self, op, a, b):
+        if isinstance(a, SymSeq) and a.pytype == 'ndarray' and isinstance(b, (int, SInt, CVal)):
+            # numpy broadcasting: element-wise comparison with a scalar
+            pc = a.plain_cells()
+            if pc is None:
+                raise CannotEncode('comparison of a symbolic-extent array')
+            return BoolArrayM([self.ip.compare(op, CVal(c, a.elem), b) for c in pc])
         if isinstance(a, SymSeq) or isinstance(b, SymSeq):
             if isinstance(op, (ast.Eq, ast.NotEq)):
                 r = self.seq_eq(a, b)
@@ -554,6 +586,8 @@ class Models:
             if isinstance(x, SymSeq):
                 return x.length
             if isinstance(x, I.Instance):
+                if '__len__' in x.stubs:
+                    return x.stubs['__len__'](ip)
                 m = x.cls.find_method(ip, '__len__')
                 if m is None:
                     raise CannotEncode('len() of instance without __len__')
@@ -742,15 +776,55 @@ class Models:
                         ins.append((g, v))
                     return IndexArrayM(ins, dt, False, True)
                 raise CannotEncode('fromiter')
+            if a == 'add':
+                return self.np_add(args, kwargs)
             if a in ('bool_', 'uint8', 'uint16', 'uint32', 'uint64', 'int8', 'int16', 'int32', 'int64', 'intp', 'float32'):
                 return self.np_scalar(np.dtype(getattr(np, a)), args[0])
         raise CannotEncode(f'external call {fn!r}')
+
+    def np_add(self, args, kwargs):
+        """np.add(a, n, out=a, where=mask) on a 1-d integer array: element + n computed exactly, then cast to the dtype
+        of `out` (same-kind casting wraps silently), written where the mask holds."""
+        ip = self.ip
+        if len(args) != 2 or set(kwargs) - {'out', 'where'} or 'out' not in kwargs:
+            raise CannotEncode('np.add form not modelled')
+        a, n = args
+        out, where = kwargs['out'], kwargs.get('where', True)
+        alts_a, alts_o = PyChoice.of(a), PyChoice.of(out)
+        if len(alts_a) != len(alts_o) or any(x[1] is not y[1] for x, y in zip(alts_a, alts_o)):
+            raise CannotEncode('np.add with out different from the first operand')
+        g0 = ip.active()
+        for g, seq in alts_o:
+            if not isinstance(seq, SymSeq) or seq.pytype != 'ndarray' or seq.plain_cells() is None:
+                raise CannotEncode('np.add on non-array')
+            ct = seq.elem
+            bits = where.bits if isinstance(where, BoolArrayM) else [where] * len(seq.cells)
+            w = max(80, PYINT_BITS + 8)
+            nt = to_wide(n, w)
+            for k in range(len(seq.cells)):
+                c = seq.cells[k]
+                ct_ = c if is_sym(c) else z3.BitVecVal(c, ct.bits)
+                wide = (z3.SignExt(w - ct.bits, ct_) if ct.signed else z3.ZeroExt(w - ct.bits, ct_)) + nt
+                new = z3.Extract(ct.bits - 1, 0, wide)
+                cond = land(g0, g, bits[k])
+                if cond is False:
+                    continue
+                seq.cells[k] = new if cond is True else z3.If(cond, new, ct_)
+        return out
 
     def _dense_cleared(self, x):
         raise CannotEncode('dense array with cleared entries')
 
     def call_method(self, obj, name, args, kwargs):
         ip = self.ip
+        if isinstance(obj, I.Instance) and name in obj.stubs:
+            return obj.stubs[name](ip, *args, **kwargs)
+        if isinstance(obj, BoolArrayM):
+            if name == 'any':
+                return simp_bool(lor(*obj.bits))
+            if name == 'all':
+                return simp_bool(land(*obj.bits))
+            raise CannotEncode(f'bool array method {name}')
         if isinstance(obj, I.Instance) and name == '__attrs_init__':
             names = [n for n, _ in obj.cls.attribs]
             vals = dict(zip(names, args))
@@ -829,13 +903,13 @@ class Models:
         if name == 'copy':
             return seq.copy()
         if name == 'view':
-            dt = np.dtype(args[0])
+            dt = np_dtype(args[0])
             ct = dtype_ctype(dt)
             if ct.bits != seq.elem.bits or seq.pytype != 'ndarray':
                 raise CannotEncode('ndarray.view changing the item size')
             return SymSeq(seq.cells, ct, 'ndarray', seq.off, seq.length, seq.writable, seq.name, dt.str)
         if name == 'astype':
-            dt = np.dtype(args[0])
+            dt = np_dtype(args[0])
             ct = dtype_ctype(dt)
             if kwargs.get('copy', True) is False and ct == seq.elem:
                 return seq
